@@ -35,3 +35,12 @@ def decode_png(data):
             elif ft != 0: raise ValueError('filter')
         rows.append(bytes(line)); prev = line
     return w, h, ch, rows
+
+
+def encode_png(w, h, rows):
+    """Minimal RGBA PNG writer (filter 0, one IDAT) for making label sources."""
+    def chunk(typ, body):
+        return struct.pack('>I', len(body)) + typ + body + struct.pack('>I', zlib.crc32(typ + body) & 0xffffffff)
+    raw = b''.join(b'\x00' + bytes(r) for r in rows)
+    return (b'\x89PNG\r\n\x1a\n' + chunk(b'IHDR', struct.pack('>IIBBBBB', w, h, 8, 6, 0, 0, 0)) +
+            chunk(b'IDAT', zlib.compress(raw, 6)) + chunk(b'IEND', b''))
